@@ -186,6 +186,40 @@ pub fn c12_sized(ctx: &mut Ctx) {
             });
         }
     }
+    // size ladder: requests far above the enumerated range (around 16, 32, 64, 100, 256, 512), default answers
+    // plus one deviation on each of the first 96 draws
+    {
+        let list = vec!["INTEGER.+".to_string(), "EXEC.DUP".to_string()];
+        let mut m = M::default();
+        m.bindings.insert("X".into(), Tree::I(1));
+        for n in [15usize, 16, 17, 31, 33, 64, 65, 100, 101, 255, 256, 257, 258, 300, 513, 700] {
+            let icache = pushr::push::instructions::InstructionCache::new(list.clone());
+            let list2 = list.clone();
+            let m2 = m.clone();
+            let lab = format!("random_code_with_size n={} (ladder)", n);
+            let mut realref = &mut real;
+            judged_pass(ctx, &lab, &red, 1, &red, 0, &mut |ctx2, script| {
+                let (r, log) = scripted(script, 100_000, || {
+                    let st = build(&m2);
+                    tree_of(&CodeGenerator::random_code_with_size(&st, &icache, n))
+                });
+                match r {
+                    Err(p) => RunOut { log, okey: panic_class(&p), verdict: Verdict::fail("random_code_with_size", &panic_class(&p), p), nontrivial: false },
+                    Ok(t) => {
+                        let mut v = Verdict::Pass;
+                        if t.points() != n {
+                            v = Verdict::fail("random_code_with_size", "size", format!("requested {} points, got {}", n, t.points()));
+                        } else if let Some((c, d)) = check_item(ctx2, &t, &list2, &m2) {
+                            v = Verdict::fail("random_code_with_size", &c, d);
+                        } else if let Some((c, d)) = runs_and_prints(&mut realref, &t, false) {
+                            v = Verdict::fail("generated-program", &c, d);
+                        }
+                        RunOut { log, okey: format!("{}", t.points()), verdict: v, nontrivial: true }
+                    }
+                }
+            });
+        }
+    }
     require_sometimes(ctx, &["leaf:TRUE", "leaf:FALSE", "leaf:integer", "leaf:float", "leaf:instruction", "leaf:bound-name", "leaf:new-name", "list-of-1", "list-of-2", "list-of-3"]);
 }
 
